@@ -12,7 +12,7 @@ package main
 // records for every request whether the connection was refused, the response completed, or it was cut, and when; and the
 // exit time and status of the process (a process that was killed by a signal has status -<signal number>).
 //
-//	<prefix>.in     shutdown <nn> <W> <G> | <arrivals ns> | <service ns> | <signal instants ns> | <signal numbers> | <sync 0/1>
+//	<prefix>.in     shutdown <nn> <W> <G> | <arrivals ns> | <service ns> | <signal instants ns> | <signal numbers> | <sync 0/1> | <request kinds> | <tracing 0/1/2>
 //	                (planned times, relative to the first signal; the signal lists start with the first signal at 0;
 //	                sync = 1: the upstream answers that request at <process's own close instant> + (arrival + service - W),
 //	                the close instant being read from the time stamp of the process's "starting graceful shutdown" log line)
@@ -64,6 +64,38 @@ type sdScenario struct {
 	sigs  []sdSig        // further signals, in order of their instants
 	sync  []bool         // per request (may be shorter than reqs): completion synchronised to the process's close instant
 	kinds []int          // per request (may be shorter than reqs): what kind of request it is (shutdownidp.go: sdKind*; absent = 0 = a proxied request to the slow upstream)
+	otel  int            // the deployment's tracing: sdOtelOff | sdOtelUnreachable | sdOtelSilent
+}
+
+// Deployment dimension: OpenTelemetry tracing (pkg/config/otel.go: --otel.enabled, OTEL_EXPORTER_OTLP_ENDPOINT; the OTLP gRPC
+// exporter of internal/o11y/otel takes its endpoint from that variable). The collector is part of the environment: it may be
+// down (nobody listens on its port) or accept connections and never answer (hung, or a black-holing proxy in front of it).
+const (
+	sdOtelOff         = iota // tracing not enabled (the default)
+	sdOtelUnreachable        // tracing enabled, collector endpoint = a closed local port (connection refused)
+	sdOtelSilent             // tracing enabled, collector accepts the connection and never answers
+)
+
+var sdOtelNames = []string{"tracing off", "tracing on, collector unreachable (closed port)", "tracing on, collector accepts connections and never answers"}
+
+// address of the driver's silent collector (sdStartSilentCollector), set once by runShutdown before any scenario runs
+var sdSilentCollector string
+
+func sdStartSilentCollector() (net.Listener, error) {
+	l, err := net.Listen("tcp", "127.0.0.1:0")
+	if err != nil {
+		return nil, err
+	}
+	go func() {
+		for {
+			c, err := l.Accept()
+			if err != nil {
+				return
+			}
+			go io.Copy(io.Discard, c) // reads whatever is sent, never writes, never closes
+		}
+	}()
+	return l, nil
 }
 
 func (sc sdScenario) synced(i int) bool { return i < len(sc.sync) && sc.sync[i] }
@@ -232,9 +264,23 @@ func sdRunScenario(bin, cwd, wk, upstream string, sc sdScenario) sdObs {
 		"--ingress=http://" + bind, "--openid.client-id=cid", "--openid.client-secret=s3cret", "--openid.well-known-url=" + wk,
 		"--upstream-host=" + upstream,
 		"--shutdown-wait-before-period=" + sc.W.String(), "--shutdown-graceful-period=" + sc.G.String()}
+	env := []string{"PATH=/usr/bin:/bin", "HOME=" + cwd}
+	switch sc.otel {
+	case sdOtelUnreachable:
+		cp, err := wwFreePorts(1) // handed out to nobody else: nothing listens there
+		if err != nil {
+			obs.err = err.Error()
+			return obs
+		}
+		args = append(args, "--otel.enabled=true")
+		env = append(env, fmt.Sprintf("OTEL_EXPORTER_OTLP_ENDPOINT=http://127.0.0.1:%d", cp[0]))
+	case sdOtelSilent:
+		args = append(args, "--otel.enabled=true")
+		env = append(env, "OTEL_EXPORTER_OTLP_ENDPOINT=http://"+sdSilentCollector)
+	}
 	cmd := exec.Command(bin, args...)
 	cmd.Dir = cwd
-	cmd.Env = []string{"PATH=/usr/bin:/bin", "HOME=" + cwd}
+	cmd.Env = env
 	buf := &sdLogTap{closed: make(chan time.Time, 1)}
 	cmd.Stdout, cmd.Stderr = buf, buf
 	if err := cmd.Start(); err != nil {
@@ -412,7 +458,7 @@ func sdRunScenario(bin, cwd, wk, upstream string, sc sdScenario) sdObs {
 		kill()
 		obs.exit = limit
 		obs.exitCode = -1000
-		obs.err = "still running after graceful + 8 s; killed"
+		obs.err = "still running after graceful + 8 s; killed; last output of the process: " + strings.ReplaceAll(scTail(buf.String()), "\t", " ")
 	}
 	wg.Wait()
 	<-sigDone
@@ -540,6 +586,7 @@ func sdScenarios(rng *mrand.Rand, tier string) []sdScenario {
 	}
 	out = append(out, sdSignalScenarios()...)
 	out = append(out, sdBackChannelScenarios()...)
+	out = append(out, sdTracingScenarios()...)
 	if tier == "thorough" {
 		for k := 0; k < 96; k++ {
 			c := cfgs[rng.Intn(len(cfgs))]
@@ -696,6 +743,34 @@ func sdSignalScenarios() []sdScenario {
 	// (status -9, request in flight cut, later connection refused). The monitor makes no claim about this scenario.
 	out = append(out, sdScenario{name: "control: W=1s G=3s SIGKILL at 400ms; in-flight request finishing at 2.3s", W: 1000 * ms, G: 3000 * ms,
 		sigs: []sdSig{{400 * ms, syscall.SIGKILL}}, reqs: []sdReq{{-250 * ms, 2550 * ms}, {700 * ms, 200 * ms}}})
+	return out
+}
+
+// sdTracingScenarios: the deployment dimension {tracing off, tracing on with an unreachable collector, tracing on with a
+// collector that never answers} x {an in-flight request that cannot complete within the graceful period (forced exit at the
+// deadline), an in-flight request that completes in the drain (successful exit)}. A request that COMPLETED shortly before
+// the signal leaves finished spans queued in the exporter's batcher (it exports every 5 s; the process is younger than that
+// when the deadline passes), so that anything the process does with queued spans on its way out has work to do.
+// Margins as everywhere: every planned instant >= 150 ms away from the close, the poll windows and the deadline.
+func sdTracingScenarios() []sdScenario {
+	ms := time.Millisecond
+	var out []sdScenario
+	type wg struct{ W, G, drained time.Duration }
+	// drained: finish instant noticed by a poll well before the deadline (see okLate in sdScenarios)
+	for _, c := range []wg{{0, 1000 * ms, 300 * ms}, {500 * ms, 2000 * ms, 1300 * ms}} {
+		for otel := sdOtelOff; otel <= sdOtelSilent; otel++ {
+			for _, F := range []time.Duration{c.G + 1000*ms, c.drained} {
+				what := "in-flight request that cannot finish (forced exit)"
+				if F < c.G {
+					what = fmt.Sprintf("in-flight request finishing at %s (drained)", F)
+				}
+				sc := sdScenario{name: fmt.Sprintf("W=%s G=%s %s; a request completed 400ms before the signal; %s", c.W, c.G, sdOtelNames[otel], what),
+					W: c.W, G: c.G, otel: otel}
+				sc.reqs = []sdReq{{-450 * ms, 50 * ms}, {-250 * ms, F + 250*ms}, {c.W + 350*ms, 100 * ms}}
+				out = append(out, sc)
+			}
+		}
+	}
 	return out
 }
 
@@ -899,6 +974,12 @@ func runShutdown(args []string) error {
 		return err
 	}
 	defer upSrv.Close()
+	silent, err := sdStartSilentCollector()
+	if err != nil {
+		return err
+	}
+	defer silent.Close()
+	sdSilentCollector = silent.Addr().String()
 
 	scs := sdScenarios(rng, *tier)
 	obs := make([]sdObs, len(scs))
@@ -960,6 +1041,7 @@ func runShutdown(args []string) error {
 		for i := range sc.reqs {
 			in = append(in, strconv.Itoa(sc.kind(i)))
 		}
+		in = append(in, "|", strconv.Itoa(sc.otel))
 		fmt.Fprintln(fin, strings.Join(in, " "))
 		if o.refused {
 			fmt.Fprintf(fimpl, "R %d\n", o.refClass)
